@@ -570,3 +570,73 @@ Section OpenContract.
     Qed.
   End ReadSideOpen.
 End OpenContract.
+
+(* ================================================================== the FrameD instance satisfies it *)
+Theorem fd_dec_contract_open : dec_contract_open dstate dctx_init fd_info fd_dec fd_pos.
+Proof.
+  intros F C HF HbF. pose proof (frame_ok_spec F C HF) as HV.
+  destruct (fd_open F C HV HbF) as (Hmin & Hinfo).
+  split; [exact Hmin|]. split; [exact Hinfo|]. split.
+  - intros d i j (C' & HV' & _ & Hi & Hj & Hend & _). rewrite HV in HV'. inversion HV'; subst C'. auto.
+  - intros d i j s cap (C' & HV' & _ & Hi & Hj & Hend & Hrun) Hlt Hs Hcap Hag Hbs.
+    rewrite HV in HV'. inversion HV'; subst C'. destruct (Hrun Hlt) as [Hwf HB].
+    exact (fd_step F C d i j s cap HV HbF Hlt Hj Hwf HB Hs Hcap Hag Hbs).
+Qed.
+
+(* ================================================================== round trip, decoder side discharged *)
+Section RoundTrip.
+  Variable cst : Type.
+  Variable cst0 : cst.
+  Variable cBegin : cst -> option prefs -> Z -> fres (list byte) * cst.
+  Variable cUpdate : cst -> list byte -> Z -> fres (list byte) * cst.
+  Variable cEnd : cst -> Z -> fres (list byte) * cst.
+
+  (* the compressor hands byte strings to fwrite when it is given byte strings (a typing fact of the
+     C code; in the models a byte is a Z) *)
+  Definition comp_writes_bytes : Prop :=
+    forall po bufs xs file,
+      write_session cst cst0 cBegin cUpdate cEnd po bufs = (FOk xs, file) ->
+      bytes_ok (concat bufs) = true -> bytes_ok file = true.
+
+  (* C20_roundtrip for ANY decoder meeting the contract as lz4file.c uses it *)
+  Theorem roundtrip_open : forall dst dst0 dGetFrameInfo dDecompress dpos,
+    comp_contract cst cst0 cBegin cUpdate cEnd -> comp_writes_bytes ->
+    dec_contract_open dst dst0 dGetFrameInfo dDecompress dpos ->
+    forall po mw bufs sizes junk,
+      maxWrite_of po = Some mw -> FileProofs.csize_ok po (concat bufs) -> bytes_ok (concat bufs) = true ->
+      exists file,
+        write_session cst cst0 cBegin cUpdate cEnd po bufs = (FOk (map (fun b => FOk (length b)) bufs), file) /\
+        frame_ok file (concat bufs) /\
+        read_session dst dst0 dGetFrameInfo dDecompress true junk file sizes = FOk (chop (concat bufs) sizes).
+  Proof.
+    intros dst dst0 dGetFrameInfo dDecompress dpos Hc Hcb Hd po mw bufs sizes junk Hmw Hcs Hbb.
+    destruct (write_session_ok cst cst0 cBegin cUpdate cEnd Hc po mw bufs Hmw Hcs) as (file & Hw & Hf).
+    exists file. split; [exact Hw|]. split; [exact Hf|].
+    apply (read_session_open dst dst0 dGetFrameInfo dDecompress dpos Hd file (concat bufs) Hf).
+    exact (Hcb po bufs _ file Hw Hbb).
+  Qed.
+
+  (* ... and for the decoder of lz4frame.c (Model/FrameD.v): no assumption on the decoder left *)
+  Theorem roundtrip_dec_discharged :
+    comp_contract cst cst0 cBegin cUpdate cEnd -> comp_writes_bytes ->
+    forall po mw bufs sizes junk,
+      maxWrite_of po = Some mw -> FileProofs.csize_ok po (concat bufs) -> bytes_ok (concat bufs) = true ->
+      exists file,
+        write_session cst cst0 cBegin cUpdate cEnd po bufs = (FOk (map (fun b => FOk (length b)) bufs), file) /\
+        frame_ok file (concat bufs) /\
+        read_session dstate dctx_init fd_info fd_dec true junk file sizes = FOk (chop (concat bufs) sizes).
+  Proof.
+    intros Hc Hcb. exact (roundtrip_open dstate dctx_init fd_info fd_dec fd_pos Hc Hcb fd_dec_contract_open).
+  Qed.
+End RoundTrip.
+
+(* the read side alone: ANY file that is one frame (of bytes) is read back through the model of
+   lz4frame.c's decoder exactly as [chop] says, for all read sizes and whatever LZ4F_readOpen's
+   stack holds *)
+Theorem read_session_framed : forall F C junk sizes,
+  frame_ok F C -> bytes_ok F = true ->
+  read_session dstate dctx_init fd_info fd_dec true junk F sizes = FOk (chop C sizes).
+Proof.
+  intros F C junk sizes HF Hb.
+  exact (read_session_open dstate dctx_init fd_info fd_dec fd_pos fd_dec_contract_open F C HF Hb junk sizes).
+Qed.
